@@ -90,8 +90,7 @@ pub fn parse_root_adt<R: Read + Seek>(
         if let Some(chunk_info) = chunks.first() {
             reader.seek(SeekFrom::Start(chunk_info.offset + 8))?; // Skip header
             // Read chunk data into buffer to prevent reading into next chunk
-            let mut chunk_data = vec![0u8; chunk_info.size as usize];
-            reader.read_exact(&mut chunk_data)?;
+            let chunk_data = crate::chunk_header::read_vec(reader, chunk_info.size as usize)?;
             let mut cursor = std::io::Cursor::new(chunk_data);
             let mtex = MtexChunk::read_le(&mut cursor)?;
             mtex.filenames
@@ -107,8 +106,7 @@ pub fn parse_root_adt<R: Read + Seek>(
         if let Some(chunk_info) = chunks.first() {
             reader.seek(SeekFrom::Start(chunk_info.offset + 8))?;
             // Read chunk data into buffer to prevent reading into next chunk
-            let mut chunk_data = vec![0u8; chunk_info.size as usize];
-            reader.read_exact(&mut chunk_data)?;
+            let chunk_data = crate::chunk_header::read_vec(reader, chunk_info.size as usize)?;
             let mut cursor = std::io::Cursor::new(chunk_data);
             let mmdx = MmdxChunk::read_le(&mut cursor)?;
             mmdx.filenames
@@ -124,8 +122,7 @@ pub fn parse_root_adt<R: Read + Seek>(
         if let Some(chunk_info) = chunks.first() {
             reader.seek(SeekFrom::Start(chunk_info.offset + 8))?;
             // Read chunk data into buffer to prevent until_eof from reading past chunk boundary
-            let mut chunk_data = vec![0u8; chunk_info.size as usize];
-            reader.read_exact(&mut chunk_data)?;
+            let chunk_data = crate::chunk_header::read_vec(reader, chunk_info.size as usize)?;
             let mut cursor = std::io::Cursor::new(chunk_data);
             let mmid = MmidChunk::read_le(&mut cursor)?;
             mmid.offsets
@@ -141,8 +138,7 @@ pub fn parse_root_adt<R: Read + Seek>(
         if let Some(chunk_info) = chunks.first() {
             reader.seek(SeekFrom::Start(chunk_info.offset + 8))?;
             // Read chunk data into buffer to prevent reading into next chunk
-            let mut chunk_data = vec![0u8; chunk_info.size as usize];
-            reader.read_exact(&mut chunk_data)?;
+            let chunk_data = crate::chunk_header::read_vec(reader, chunk_info.size as usize)?;
             let mut cursor = std::io::Cursor::new(chunk_data);
             let mwmo = MwmoChunk::read_le(&mut cursor)?;
             mwmo.filenames
@@ -158,8 +154,7 @@ pub fn parse_root_adt<R: Read + Seek>(
         if let Some(chunk_info) = chunks.first() {
             reader.seek(SeekFrom::Start(chunk_info.offset + 8))?;
             // Read chunk data into buffer to prevent until_eof from reading past chunk boundary
-            let mut chunk_data = vec![0u8; chunk_info.size as usize];
-            reader.read_exact(&mut chunk_data)?;
+            let chunk_data = crate::chunk_header::read_vec(reader, chunk_info.size as usize)?;
             let mut cursor = std::io::Cursor::new(chunk_data);
             let mwid = MwidChunk::read_le(&mut cursor)?;
             mwid.offsets
@@ -175,8 +170,7 @@ pub fn parse_root_adt<R: Read + Seek>(
         if let Some(chunk_info) = chunks.first() {
             reader.seek(SeekFrom::Start(chunk_info.offset + 8))?;
             // Read chunk data into buffer to prevent until_eof from reading past chunk boundary
-            let mut chunk_data = vec![0u8; chunk_info.size as usize];
-            reader.read_exact(&mut chunk_data)?;
+            let chunk_data = crate::chunk_header::read_vec(reader, chunk_info.size as usize)?;
             let mut cursor = std::io::Cursor::new(chunk_data);
             let mddf = MddfChunk::read_le(&mut cursor)?;
             mddf.placements
@@ -192,8 +186,7 @@ pub fn parse_root_adt<R: Read + Seek>(
         if let Some(chunk_info) = chunks.first() {
             reader.seek(SeekFrom::Start(chunk_info.offset + 8))?;
             // Read chunk data into buffer to prevent until_eof from reading past chunk boundary
-            let mut chunk_data = vec![0u8; chunk_info.size as usize];
-            reader.read_exact(&mut chunk_data)?;
+            let chunk_data = crate::chunk_header::read_vec(reader, chunk_info.size as usize)?;
             let mut cursor = std::io::Cursor::new(chunk_data);
             let modf = ModfChunk::read_le(&mut cursor)?;
             modf.placements
@@ -256,8 +249,7 @@ pub fn parse_root_adt<R: Read + Seek>(
                 reader.seek(SeekFrom::Start(chunk_info.offset + 8))?;
                 // Read chunk data into buffer: the entry list runs to the end of its input
                 // and must not continue into the chunks that follow
-                let mut chunk_data = vec![0u8; chunk_info.size as usize];
-                reader.read_exact(&mut chunk_data)?;
+                let chunk_data = crate::chunk_header::read_vec(reader, chunk_info.size as usize)?;
                 let mut cursor = std::io::Cursor::new(chunk_data);
                 Some(MtxfChunk::read_le(&mut cursor)?)
             } else {
@@ -293,8 +285,7 @@ pub fn parse_root_adt<R: Read + Seek>(
                 reader.seek(SeekFrom::Start(chunk_info.offset + 8))?;
                 // Read chunk data into buffer: the entry list runs to the end of its input
                 // and must not continue into the chunks that follow
-                let mut chunk_data = vec![0u8; chunk_info.size as usize];
-                reader.read_exact(&mut chunk_data)?;
+                let chunk_data = crate::chunk_header::read_vec(reader, chunk_info.size as usize)?;
                 let mut cursor = std::io::Cursor::new(chunk_data);
                 Some(MtxpChunk::read_le(&mut cursor)?)
             } else {
@@ -314,8 +305,7 @@ pub fn parse_root_adt<R: Read + Seek>(
                 reader.seek(SeekFrom::Start(chunk_info.offset + 8))?;
                 // Read chunk data into buffer: the entry list runs to the end of its input
                 // and must not continue into the chunks that follow
-                let mut chunk_data = vec![0u8; chunk_info.size as usize];
-                reader.read_exact(&mut chunk_data)?;
+                let chunk_data = crate::chunk_header::read_vec(reader, chunk_info.size as usize)?;
                 let mut cursor = std::io::Cursor::new(chunk_data);
                 Some(MbmhChunk::read_le(&mut cursor)?)
             } else {
@@ -335,8 +325,7 @@ pub fn parse_root_adt<R: Read + Seek>(
                 reader.seek(SeekFrom::Start(chunk_info.offset + 8))?;
                 // Read chunk data into buffer: the entry list runs to the end of its input
                 // and must not continue into the chunks that follow
-                let mut chunk_data = vec![0u8; chunk_info.size as usize];
-                reader.read_exact(&mut chunk_data)?;
+                let chunk_data = crate::chunk_header::read_vec(reader, chunk_info.size as usize)?;
                 let mut cursor = std::io::Cursor::new(chunk_data);
                 Some(MbbbChunk::read_le(&mut cursor)?)
             } else {
@@ -356,8 +345,7 @@ pub fn parse_root_adt<R: Read + Seek>(
                 reader.seek(SeekFrom::Start(chunk_info.offset + 8))?;
                 // Read chunk data into buffer: the entry list runs to the end of its input
                 // and must not continue into the chunks that follow
-                let mut chunk_data = vec![0u8; chunk_info.size as usize];
-                reader.read_exact(&mut chunk_data)?;
+                let chunk_data = crate::chunk_header::read_vec(reader, chunk_info.size as usize)?;
                 let mut cursor = std::io::Cursor::new(chunk_data);
                 Some(MbnvChunk::read_le(&mut cursor)?)
             } else {
@@ -377,8 +365,7 @@ pub fn parse_root_adt<R: Read + Seek>(
                 reader.seek(SeekFrom::Start(chunk_info.offset + 8))?;
                 // Read chunk data into buffer: the entry list runs to the end of its input
                 // and must not continue into the chunks that follow
-                let mut chunk_data = vec![0u8; chunk_info.size as usize];
-                reader.read_exact(&mut chunk_data)?;
+                let chunk_data = crate::chunk_header::read_vec(reader, chunk_info.size as usize)?;
                 let mut cursor = std::io::Cursor::new(chunk_data);
                 Some(MbmiChunk::read_le(&mut cursor)?)
             } else {
